@@ -98,7 +98,7 @@ def forbidden_gate(extra_dirs=()):
     """grep gate: no Admitted/admit/Axiom/Parameter/... anywhere in the development
     (comments and string literals are ignored)."""
     bad = []
-    roots = [COQ] + list(extra_dirs)
+    roots = [COQ, dyn_dir()] + list(extra_dirs)
     for root in roots:
         for dp, _, fns in os.walk(root):
             for fn in fns:
@@ -207,38 +207,38 @@ def theorem_names(vfile):
     return re.findall(r"^\s*(?:Theorem|Lemma|Corollary|Example)\s+([\w']+)", txt, re.M)
 
 
-def prove_property(pid, extra=(), timeout=1800):
-    """Compile coq/Properties/<pid>.v (always recompiled). Returns dict."""
-    vfile = os.path.join(COQ, "Properties", pid + ".v")
-    names = theorem_names(vfile)
-    with lock("coq"):
-        t0 = time.time()
-        rc, out = coqc_file(vfile, extra, timeout)
-        dt = time.time() - t0
-    blocks = parse_assumptions(out)
+def prove_property(pid, pre_steps=(), timeout=1800):
+    """Compile (always) coq/Properties/<pid>.v in the per-run directory after `pre_steps`
+    (generated files / reflection instances).  Returns a dict for Ctx.record_proof plus
+    `results` (per-file) and `failed` (first failing step or None)."""
+    rel = "Properties/%s.v" % pid
+    steps = list(pre_steps) + [(rel, None)]
+    res = build_dynamic(steps, timeout=timeout, always=(rel,))
+    ff = first_failure(res)
+    names = theorem_names(os.path.join(COQ, rel))
+    last = res[-1]
+    ok = ff is None and last["path"] == rel
     return {
-        "ok": rc == 0,
-        "rc": rc,
-        "out": out,
-        "theorems": names,
-        "assumptions": blocks,
-        "wall_s": dt,
-        "cmd": "coqc -Q coq MV coq/Properties/%s.v" % pid,
+        "ok": ok, "theorems": names, "results": res, "failed": ff,
+        "assumptions": parse_assumptions(last["out"]) if last["path"] == rel else [],
+        "wall_s": sum(r["wall_s"] for r in res),
+        "cmd": "coqc -Q coq MV -Q build/dyn-<repo> MVD " + " ".join(s[0] for s in steps) + "  (via harness/check.py %s)" % pid,
     }
 
 
 def coq_eval(name, text, extra=(), timeout=900):
-    """Write build/cases/<name>.v with `text`, compile it, return (rc, out)."""
-    d = os.path.join(BUILD, "cases")
+    """Write <dyn_dir>/Cases/<name>.v with `text`, compile it (MV and MVD visible), return (rc, out)."""
+    d = os.path.join(dyn_dir(), "Cases")
     os.makedirs(d, exist_ok=True)
     p = os.path.join(d, name + ".v")
     with open(p, "w") as f:
         f.write(text)
-    return coqc_file(p, extra, timeout, cwd=d)
+    return coqc_file(p, tuple(extra) + tuple(dyn_flags()), timeout, cwd=d)
 
 
 def coq_eval_many(named_texts, extra=(), timeout=900):
-    d = os.path.join(BUILD, "cases")
+    """Same for several independent case files, compiled in parallel; returns [(rc, out)]."""
+    d = os.path.join(dyn_dir(), "Cases")
     os.makedirs(d, exist_ok=True)
     paths = []
     for name, text in named_texts:
@@ -246,7 +246,7 @@ def coq_eval_many(named_texts, extra=(), timeout=900):
         with open(p, "w") as f:
             f.write(text)
         paths.append(p)
-    res = coqc_many(paths, extra, timeout)
+    res = coqc_many(paths, tuple(extra) + tuple(dyn_flags()), timeout)
     return [res[p] for p in paths]
 
 
@@ -480,21 +480,39 @@ def newest_static_vo():
     return m
 
 
+def dyn_dir():
+    """Per-repository directory for everything compiled per run (generated tables, reflection
+    instances, property files, case files).  Logical root MVD.  Keyed by the repository path so
+    that checks against different trees (scratch worktrees) never share compiled files."""
+    d = os.path.join(BUILD, "dyn-" + sha(os.path.abspath(REPO))[:10])
+    os.makedirs(d, exist_ok=True)
+    return d
+
+
+def dyn_flags():
+    return [(dyn_dir(), "MVD")]
+
+
 def build_dynamic(steps, timeout=1800, always=()):
-    """steps: list of (relative .v path under coq/, text or None).  Files are compiled in order;
-    a file is recompiled when its text changed, its .vo is missing/older than the source or than
-    any static .vo, or an earlier step was recompiled.  Paths in `always` are always recompiled
-    (property files, so that Print Assumptions output is captured on every run).
+    """steps: list of (relative .v path, text or None).  With text=None the source is copied
+    from coq/<relpath> (hand-written per-run files: Reflect/*Inst.v, Properties/*.v); otherwise
+    `text` is the generated source.  Files are compiled in order inside dyn_dir() under logical
+    root MVD; a file is recompiled when its text changed, its .vo is missing/older than the
+    source or than any static .vo, or an earlier step was recompiled.  Paths in `always` are
+    always recompiled (property files, so that Print Assumptions is captured on every run).
     Returns list of dicts {path, rc, out, recompiled}; stops after the first failure."""
     res = []
-    with lock("coq"):
+    d = dyn_dir()
+    with lock("dyn-" + os.path.basename(d)):
         dirty = False
         stat = newest_static_vo()
         for rel, text in steps:
-            p = os.path.join(COQ, rel)
-            if text is not None:
-                if write_if_changed(p, text):
-                    dirty = True
+            p = os.path.join(d, rel)
+            if text is None:
+                with open(os.path.join(COQ, rel), encoding="utf-8") as f:
+                    text = f.read()
+            if write_if_changed(p, text):
+                dirty = True
             vo = p[:-2] + ".vo"
             need = dirty or rel in always or not os.path.exists(vo) \
                 or os.path.getmtime(vo) < os.path.getmtime(p) or os.path.getmtime(vo) < stat
@@ -502,7 +520,7 @@ def build_dynamic(steps, timeout=1800, always=()):
                 if os.path.exists(vo):
                     os.remove(vo)
                 t0 = time.time()
-                rc, out = coqc_file(p, (), timeout)
+                rc, out = coqc_file(p, dyn_flags(), timeout, cwd=d)
                 dirty = True
                 res.append({"path": rel, "rc": rc, "out": out, "recompiled": True, "wall_s": time.time() - t0})
                 if rc != 0:
@@ -510,6 +528,39 @@ def build_dynamic(steps, timeout=1800, always=()):
             else:
                 res.append({"path": rel, "rc": 0, "out": "", "recompiled": False, "wall_s": 0.0})
     return res
+
+
+def build_dynamic_parallel(steps, timeout=1800, jobs=None):
+    """Like build_dynamic for a set of mutually independent files (e.g. one generated file per
+    space group): all are (re)compiled in parallel when needed.  Returns list of result dicts
+    in the order of `steps`."""
+    d = dyn_dir()
+    out = []
+    with lock("dyn-" + os.path.basename(d)):
+        stat = newest_static_vo()
+        todo = []
+        for rel, text in steps:
+            p = os.path.join(d, rel)
+            if text is None:
+                with open(os.path.join(COQ, rel), encoding="utf-8") as f:
+                    text = f.read()
+            changed = write_if_changed(p, text)
+            vo = p[:-2] + ".vo"
+            need = changed or not os.path.exists(vo) or os.path.getmtime(vo) < os.path.getmtime(p) \
+                or os.path.getmtime(vo) < stat
+            if need:
+                if os.path.exists(vo):
+                    os.remove(vo)
+                todo.append(p)
+        t0 = time.time()
+        r = coqc_many(todo, dyn_flags(), timeout, jobs) if todo else {}
+        for rel, _ in steps:
+            p = os.path.join(d, rel)
+            if p in r:
+                out.append({"path": rel, "rc": r[p][0], "out": r[p][1], "recompiled": True, "wall_s": time.time() - t0})
+            else:
+                out.append({"path": rel, "rc": 0, "out": "", "recompiled": False, "wall_s": 0.0})
+    return out
 
 
 def first_failure(results):
